@@ -7,6 +7,7 @@ import VerdeModel.Model.Blocks
 import VerdeModel.Model.Windows
 import VerdeModel.Model.Grid
 import VerdeModel.Model.CV
+import VerdeModel.Model.Score
 namespace Verde
 open Val
 
@@ -202,7 +203,34 @@ def opsCV (op : String) (a : List Val) : Option Val :=
       pure (toVal r)
   | _ => none
 
-def dispatchers : List (String → List Val → Option Val) := [opsCoords, opsBlocks, opsWindows, opsGrid, opsCV]
+def parseScoring : String → Option Scoring
+  | "r2" => some .r2 | "neg_mean_squared_error" => some .negMSE | "neg_mean_absolute_error" => some .negMAE | _ => none
+
+instance : ToVal Rows := ⟨fun r => toVal (r.coords, r.data, r.weights)⟩
+
+def rowsAt (a : List Val) (i : Nat) : Option Rows := do
+  pure ⟨← argAt (List (List Rat)) a i, ← argAt (List (List Rat)) a (i + 1), ← argAt (Option (List (List Rat))) a (i + 2)⟩
+
+def opsScore (op : String) (a : List Val) : Option Val :=
+  match op with
+  | "cv_score" => do
+      let rows ← rowsAt a 0
+      let splits ← argAt (List (List Nat × List Nat)) a 3
+      let s ← parseScoring (← argAt String a 4)
+      pure (toVal (crossValScore momentEst s rows splits))
+  | "tts" => do
+      let rows ← rowsAt a 0
+      let sp ← argAt (List Nat × List Nat) a 3
+      pure (toVal (trainTestSplit rows sp))
+  | "splinecv_select" => do
+      pure (toVal (splineCVSelect (← argAt (List (List Rat)) a 0)))
+  | "metric" => do
+      let s ← parseScoring (← argAt String a 0)
+      pure (toVal (metric s (← argAt (List Rat) a 1) (← argAt (List Rat) a 2) (← argAt (Option (List Rat)) a 3)))
+  | _ => none
+
+def dispatchers : List (String → List Val → Option Val) :=
+  [opsCoords, opsBlocks, opsWindows, opsGrid, opsCV, opsScore]
 
 def runLine (line : String) : String :=
   match Val.parseLine line with
